@@ -26,8 +26,52 @@ var osConsts = map[string]int64{
 	"syscall.O_CREAT": int64(os.O_CREATE), "syscall.O_TRUNC": int64(os.O_TRUNC), "syscall.O_EXCL": int64(os.O_EXCL),
 }
 
+// package-level constants of the repository's root package (name -> defining expression), so
+// that a mask moved into a named constant still evaluates (a harmless rewrite)
+var pkgConsts = map[string]ast.Expr{}
+
+func loadPkgConsts(repo string) {
+	pkgConsts = map[string]ast.Expr{}
+	files, _ := filepath.Glob(filepath.Join(repo, "*.go"))
+	for _, f := range files {
+		if strings.HasSuffix(f, "_test.go") {
+			continue
+		}
+		af, err := parser.ParseFile(token.NewFileSet(), f, nil, 0)
+		if err != nil {
+			continue
+		}
+		for _, d := range af.Decls {
+			gd, ok := d.(*ast.GenDecl)
+			if !ok || gd.Tok != token.CONST {
+				continue
+			}
+			for _, sp := range gd.Specs {
+				vs := sp.(*ast.ValueSpec)
+				for i, n := range vs.Names {
+					if i < len(vs.Values) {
+						pkgConsts[n.Name] = vs.Values[i]
+					}
+				}
+			}
+		}
+	}
+}
+
 func evalConst(e ast.Expr) (int64, error) {
 	switch x := e.(type) {
+	case *ast.Ident:
+		if def, ok := pkgConsts[x.Name]; ok {
+			delete(pkgConsts, x.Name) // no cycles
+			v, err := evalConst(def)
+			pkgConsts[x.Name] = def
+			return v, err
+		}
+	case *ast.CallExpr:
+		// conversions such as os.FileMode(x) / int(x)
+		if len(x.Args) == 1 {
+			return evalConst(x.Args[0])
+		}
 	case *ast.BasicLit:
 		if x.Kind == token.INT {
 			v, err := strconv.ParseInt(x.Value, 0, 64)
@@ -155,6 +199,7 @@ type constEntry struct {
 }
 
 func genConsts(repo, out string) error {
+	loadPkgConsts(repo)
 	var cs []constEntry
 	add := func(name string, v int64, comment string) { cs = append(cs, constEntry{name, v, comment}) }
 
